@@ -98,7 +98,32 @@ func (s *Sim) Submit(pid string, gameIdx int, kind string, arg int64, d *Decisio
 }
 
 // Do dispatches an action kind to the API.
+// ErrHung is returned by Do when CallGuard is set and the engine call did not return.
+var ErrHung = errors.New("sim: the engine call never returned")
+
 func (s *Sim) Do(pid, kind string, arg int64) error {
+	if s.CallGuard <= 0 {
+		return s.do(pid, kind, arg)
+	}
+	done := make(chan error, 1)
+	go func() { done <- s.do(pid, kind, arg) }()
+	wait := s.CallGuard
+	for round := 0; ; round++ {
+		select {
+		case err := <-done:
+			return err
+		case <-time.After(wait):
+		}
+		if round == 0 && starved() {
+			wait = 4 * s.CallGuard
+			continue
+		}
+		s.Hung = fmt.Sprintf("%s by %s did not return within %v", kind, pid, s.CallGuard)
+		return ErrHung
+	}
+}
+
+func (s *Sim) do(pid, kind string, arg int64) error {
 	atomic.AddInt64(&s.opSeq, 1)
 	defer atomic.AddInt64(&s.opSeq, 1)
 	switch kind {
